@@ -280,7 +280,21 @@ func c03Readmsg(r *Run, rm *ssa.Function) {
 			continue
 		}
 		if !isNilConst(ret.Results[1]) {
-			// error return: must hand back a non-nil error value that comes from a failed step
+			// error return: must hand back a non-nil error value that comes from a failed step. A refusal that is not
+			// an I/O failure and comes before the body was read leaves the claimed body in the stream; that is harmless
+			// only for a length that does not even cover the size field itself (< 4: there is no body)
+			ev := ret.Results[1]
+			fromIO := false
+			for _, c := range []*ssa.Call{hdr, full, cp} {
+				if e := errResult(c); e != nil && derivesFrom(ev, e, 4) {
+					fromIO = true
+				}
+			}
+			if !fromIO && !instrDominates(full, ret) {
+				facts := fa.FactsAt(ret, wireLin)
+				r.Check(EntailsLE(facts, wireLin, linConst(3)), "frame-read", "readmsg: a frame is refused unread only when its length does not cover the size field (< 4)", ret.Pos(),
+					"readmsg refuses a frame whose length is 4 or more without consuming its body: the bytes of that body are read as the next frame's header and the stream loses frame alignment", factStrings(facts)...)
+			}
 			continue
 		}
 		nSucc++
